@@ -30,6 +30,7 @@ func main() {
 	pkgs := []string{"common", "openflow13", "protocol", "util", "ofbase"}
 	fset := token.NewFileSet()
 	vars := map[string][]write{} // pkg.name -> writes
+	globalType := map[string]string{}
 	var order []string
 	xidDraw := "Unknown"
 	lookupFresh := "Unknown"
@@ -69,6 +70,9 @@ func main() {
 						}
 						key := pkg + "." + n.Name
 						local[n.Name] = true
+						if vs := sp.(*ast.ValueSpec); vs.Type != nil {
+							globalType[key] = typeName(vs.Type)
+						}
 						vars[key] = nil
 						order = append(order, key)
 					}
@@ -151,6 +155,12 @@ func main() {
 								}
 							}
 						}
+						// a method of a package-level sync/atomic value (v.Add, v.Store, v.Swap, v.CompareAndSwap)
+						if sel, ok := x.Fun.(*ast.SelectorExpr); ok {
+							if k, ok := isGlobal(sel.X); ok && strings.HasPrefix(globalType[k], "atomic.") && sel.Sel.Name != "Load" {
+								vars[k] = append(vars[k], write{"WAtomic", fset.Position(x.Pos()).String()})
+							}
+						}
 						if id, ok := x.Fun.(*ast.Ident); ok && id.Name == "delete" && len(x.Args) > 0 {
 							if k, ok := isGlobal(rootOf(x.Args[0])); ok {
 								vars[k] = append(vars[k], write{"WDelete", fset.Position(x.Pos()).String()})
@@ -167,7 +177,12 @@ func main() {
 				})
 				// the two functions of interest
 				if pkg == "common" && fd.Name.Name == "NewHeaderGenerator" {
-					xidDraw = classifyXid(fd)
+					xidDraw = classifyXid(fd, func(name string) (string, bool) {
+						if !local[name] {
+							return "", false
+						}
+						return globalType[pkg+"."+name], true
+					})
 				}
 				if pkg == "openflow13" && fd.Name.Name == "FindFieldHeaderByName" {
 					lookupFresh = classifyLookup(fd)
@@ -457,78 +472,146 @@ func qualify(pkg, t string) string {
 }
 
 // classifyXid looks at how the closure returned by NewHeaderGenerator obtains the id
-func classifyXid(fd *ast.FuncDecl) string {
-	res := "Unknown"
+// classifyXid: how the generator draws an id from its package-level counter (whatever the
+// counter is called).  AtomicAdd32: the only use of a package-level variable is
+// atomic.AddUint32(&v, 1), or v.Add(1) on a variable of type atomic.Uint32.  ReadThenWrite: the
+// counter is also read or written plainly.  Anything else: Unknown.
+func classifyXid(fd *ast.FuncDecl, global func(string) (string, bool)) string {
 	seenAtomic, seenPlain := false, false
+	atomicUse := map[*ast.Ident]bool{}
+	isOne := func(e ast.Expr) bool {
+		if lit, ok := e.(*ast.BasicLit); ok {
+			return lit.Value == "1"
+		}
+		if c, ok := e.(*ast.CallExpr); ok && len(c.Args) == 1 { // uint32(1)
+			if lit, ok := c.Args[0].(*ast.BasicLit); ok {
+				return lit.Value == "1"
+			}
+		}
+		return false
+	}
 	ast.Inspect(fd.Body, func(n ast.Node) bool {
-		switch x := n.(type) {
-		case *ast.CallExpr:
-			if sel, ok := x.Fun.(*ast.SelectorExpr); ok {
-				if pid, ok := sel.X.(*ast.Ident); ok && pid.Name == "atomic" && sel.Sel.Name == "AddUint32" && len(x.Args) == 2 {
-					if u, ok := x.Args[0].(*ast.UnaryExpr); ok && u.Op == token.AND {
-						if id, ok := u.X.(*ast.Ident); ok && id.Name == "messageXid" {
-							if lit, ok := x.Args[1].(*ast.BasicLit); ok && lit.Value == "1" {
-								seenAtomic = true
-							}
-						}
+		x, ok := n.(*ast.CallExpr)
+		if !ok {
+			return true
+		}
+		sel, ok := x.Fun.(*ast.SelectorExpr)
+		if !ok {
+			return true
+		}
+		if pid, ok := sel.X.(*ast.Ident); ok && pid.Name == "atomic" && sel.Sel.Name == "AddUint32" && len(x.Args) == 2 {
+			if u, ok := x.Args[0].(*ast.UnaryExpr); ok && u.Op == token.AND {
+				if id, ok := u.X.(*ast.Ident); ok {
+					if t, isG := global(id.Name); isG && (t == "uint32" || t == "") && isOne(x.Args[1]) {
+						seenAtomic = true
+						atomicUse[id] = true
 					}
 				}
 			}
-		case *ast.IncDecStmt:
-			if id, ok := x.X.(*ast.Ident); ok && id.Name == "messageXid" {
-				seenPlain = true
+		}
+		if id, ok := sel.X.(*ast.Ident); ok && sel.Sel.Name == "Add" && len(x.Args) == 1 {
+			if t, isG := global(id.Name); isG && t == "atomic.Uint32" && isOne(x.Args[0]) {
+				seenAtomic = true
+				atomicUse[id] = true
 			}
-		case *ast.AssignStmt:
-			for _, l := range x.Lhs {
-				if id, ok := l.(*ast.Ident); ok && id.Name == "messageXid" {
+		}
+		return true
+	})
+	// every other mention of a package-level variable is a plain access
+	ast.Inspect(fd.Body, func(n ast.Node) bool {
+		if id, ok := n.(*ast.Ident); ok && !atomicUse[id] {
+			if _, isG := global(id.Name); isG && id.Obj == nil {
+				seenPlain = true
+			} else if isG && id.Obj != nil && id.Obj.Kind == ast.Var {
+				if _, isSpec := id.Obj.Decl.(*ast.ValueSpec); isSpec {
 					seenPlain = true
 				}
-			}
-			// a plain read of the counter into the id (xid := messageXid ...)
-			for _, r := range x.Rhs {
-				ast.Inspect(r, func(m ast.Node) bool {
-					if id, ok := m.(*ast.Ident); ok && id.Name == "messageXid" {
-						if _, isCall := r.(*ast.CallExpr); !isCall {
-							seenPlain = true
-						}
-					}
-					return true
-				})
 			}
 		}
 		return true
 	})
 	switch {
 	case seenAtomic && !seenPlain:
-		res = "AtomicAdd32"
+		return "AtomicAdd32"
 	case seenPlain:
-		res = "ReadThenWrite"
+		return "ReadThenWrite"
 	}
-	return res
+	return "Unknown"
 }
 
 // classifyLookup: every return of a non-nil first result must be &MatchField{...} (a fresh
 // composite literal)
 func classifyLookup(fd *ast.FuncDecl) string {
 	fresh, shared := false, false
+	// what each local variable was assigned
+	assigned := map[string][]ast.Expr{}
 	ast.Inspect(fd.Body, func(n ast.Node) bool {
+		switch a := n.(type) {
+		case *ast.AssignStmt:
+			if len(a.Lhs) == len(a.Rhs) {
+				for i, l := range a.Lhs {
+					if id, ok := l.(*ast.Ident); ok {
+						assigned[id.Name] = append(assigned[id.Name], a.Rhs[i])
+					}
+				}
+			} else {
+				for _, l := range a.Lhs { // multi-value call: not classified
+					if id, ok := l.(*ast.Ident); ok {
+						assigned[id.Name] = append(assigned[id.Name], nil)
+					}
+				}
+			}
+		case *ast.ValueSpec:
+			for i, id := range a.Names {
+				if i < len(a.Values) {
+					assigned[id.Name] = append(assigned[id.Name], a.Values[i])
+				}
+			}
+		}
+		return true
+	})
+	isFresh := func(e ast.Expr) bool {
+		switch x := e.(type) {
+		case *ast.UnaryExpr: // &T{...}
+			_, ok := x.X.(*ast.CompositeLit)
+			return ok && x.Op == token.AND
+		case *ast.CallExpr: // new(T)
+			id, ok := x.Fun.(*ast.Ident)
+			return ok && id.Name == "new"
+		}
+		return false
+	}
+	ast.Inspect(fd.Body, func(n ast.Node) bool {
+		if _, isLit := n.(*ast.FuncLit); isLit {
+			return false
+		}
 		r, ok := n.(*ast.ReturnStmt)
 		if !ok || len(r.Results) == 0 {
 			return true
 		}
 		switch x := r.Results[0].(type) {
 		case *ast.Ident:
-			if x.Name != "nil" {
-				shared = true
+			if x.Name == "nil" {
+				break
 			}
-		case *ast.UnaryExpr:
-			if _, ok := x.X.(*ast.CompositeLit); ok && x.Op == token.AND {
+			rhs := assigned[x.Name] // a local that only ever holds a freshly allocated record
+			ok := len(rhs) > 0
+			for _, e := range rhs {
+				if e == nil || !isFresh(e) {
+					ok = false
+				}
+			}
+			if ok {
 				fresh = true
 			} else {
 				shared = true
 			}
 		default:
-			shared = true
+			if isFresh(x) {
+				fresh = true
+			} else {
+				shared = true
+			}
 		}
 		return true
 	})
